@@ -287,15 +287,15 @@ func (s *Sess) Step(t *vkit.T, o Op, m vkit.Mode) StepResult {
 
 	if res.Got != res.Expected {
 		class := ""
-		if !o.standalone() {
-			class = s.hdrClass(id, before)
-		}
-		if class == "" && res.Got == vkit.Passed && (o.API == "snap" || o.API == "yaml") {
+		if res.Got == vkit.Passed && (o.API == "snap" || o.API == "yaml") {
 			for _, e := range before {
 				if e.ID == id && e.Text != text && vkit.Unescape(e.Text) == vkit.Unescape(text) {
 					class = "terminator-escape-conflation"
 				}
 			}
+		}
+		if class == "" && !o.standalone() {
+			class = s.hdrClass(id, before)
 		}
 		kind := "outcome"
 		if res.Got == vkit.Anomaly {
